@@ -458,6 +458,13 @@ func init() {
 				p.IsPidForStreamWherePresentationLagsEbp(pid)
 			}
 			for _, e := range p.ElementaryStreams() {
+				// fmt recovers a panic of a String() it calls itself; call the nested printers directly as well
+				if sr, ok := e.(fmt.Stringer); ok {
+					_ = sr.String()
+				}
+				if sr, ok := psi.LookupPmtStreamType(e.StreamType()).(fmt.Stringer); ok {
+					_ = sr.String()
+				}
 				e.MaxBitRate()
 				e.IsTTMLSubtitling()
 				e.StreamTypeDescription()
@@ -467,6 +474,9 @@ func init() {
 				e.IsID3Content()
 				for _, d := range e.Descriptors() {
 					d.Format()
+					if sr, ok := d.(fmt.Stringer); ok {
+						_ = sr.String()
+					}
 					d.IsIFrameProfile()
 					d.IsDolbyATMOS()
 					d.IsDolbyVision()
